@@ -165,6 +165,17 @@ def run(ctx):
         if res.violated not in expect:
             raise MachineryError('deviation %s does not violate the statements: %s' % (dev, res.violated or res.error))
         ctx.stage('spec.deviation', deviation=dev, violated=res.violated)
+    # ---- the chunk partition for EVERY number of sites and chunks (spec/ChunkInd.tla, Apalache: one SMT query over unbounded
+    #      integers); the refutation of the floor-division variant shows the query is not vacuous
+    from harness.core import run_apalache
+    v1 = run_apalache('ChunkInd', 'Partition', ctx.tmp)
+    v2 = run_apalache('ChunkInd', 'BadPartition', ctx.tmp)
+    if v2 != 'Error':
+        raise MachineryError('Apalache did not refute the deliberately wrong chunking (vacuous query?)')
+    ctx.stage('spec.ChunkInd', tool='Apalache 0.58 (--cinit=CInit --length=0)', statement='for all n >= 1, c >= 1, i < n: exactly one chunk row holds i; rows within 0..n',
+              verdict=v1, wrong_variant_refuted=True)
+    if v1 != 'NoError':      # a defect of the specification, not of the code
+        raise MachineryError('Apalache found n, c, i for which the chunk rows of the SPECIFICATION do not partition the sites')
     # ---- build
     bdir, log = build(ctx)
     if bdir is None:
